@@ -186,7 +186,8 @@ def _parts(pid, *extra):
 
 
 _parts("C01", dict(pkg="props", test="TestC01Sweep", checks_scale=0.5), dict(pkg="props", test="TestC01Big", single=True),
-       dict(pkg="props", test="TestC01FullBuffer", single=True), dict(pkg="props", test="TestC01Overflow", single=True))
+       dict(pkg="props", test="TestC01FullBuffer", single=True), dict(pkg="props", test="TestC01Overflow", single=True),
+       dict(pkg="props", test="TestC01Ring", single=True))
 PROPS["C01"]["rule"] += ("; plus a name-length sweep (entries of drawn lengths 1..255 incl. every 16k-1/16k/16k+1, multi-byte and non-UTF-8 units, created/written/removed inside plugged bursts so that each is decoded at a "
                          "different buffer offset) and bursts of 600 (quick) / 2000 (thorough) operations handled in a few reads; a burst of 8892 name-less 16-byte records (two watched files) that fills the 64 KiB read buffer exactly, twice; "
                          "and an overflow burst after which six more changes are queued behind the overflow marker: all of those must be delivered and ErrEventOverflow announced")
@@ -195,9 +196,9 @@ PROPS["C08"]["rule"] += "; plus the name-length sweep of C01 with the Add argume
 _parts("C10", dict(pkg="props", test="TestC10Overflow", single=True))
 PROPS["C10"]["rule"] += ("; plus overflow bursts (reader parked, max_queued_events + delta alternating attribute changes, delta from the seed; 1 burst quick / 10 thorough): ErrEventOverflow must arrive on Errors and nothing else, "
                          "then the exact oracle applies again to new operations and Add/Remove of a fresh directory must work")
-_parts("C11", dict(pkg="props", test="TestC11Threads", checks_scale=0.25))
+_parts("C11", dict(pkg="props", test="TestC11Threads", checks_scale=0.25), dict(pkg="props", test="TestC11Ring", single=True))
 PROPS["C11"]["rule"] += ("; plus threaded mode: 2-8 goroutines each moving its own uniquely named file 3-25 times between two watched directories and an unwatched one; every Create is paired by name with the move that produced it "
-                         "(old name iff the source was covered)")
+                         "(old name iff the source was covered); and ring cases: 9..30 unmatched moves out, then moves in from outside / between watched directories, quiescent and plugged")
 _parts("C04", dict(pkg="props", test="TestC04Exhaustive", enumerated=True))
 PROPS["C04"]["rule"] += ("; plus bounded-exhaustive enumeration: all sequences up to length 2 (quick) / 3 (thorough, split over the shards) over an alphabet of 28 symbols (Add and Remove of file, dir, symlink to each, hard link, second file, "
                          "missing path, path through a file, symlink loop, 300-byte name; 8 filesystem mutations), WatchList after every step, spelling chosen per occurrence from 7 forms, final probe for duplicate events")
